@@ -40,6 +40,9 @@ type Server struct {
 	publishMu             sync.Mutex
 	docGen                atomic.Uint64 // bumped whenever the set or the text of open documents changes
 	docSeq                sync.Map      // map[protocol.DocumentURI]uint64: number of the latest open/change/close of each document
+	cfgRequested          atomic.Uint64 // number of configuration refreshes requested so far
+	cfgApplyMu            sync.Mutex    // guards cfgApplied and the read-merge-store of the settings
+	cfgApplied            uint64        // number of the latest refresh whose answer was applied
 }
 
 func NewServer() *Server {
@@ -175,7 +178,7 @@ func (s *Server) Initialized(_ context.Context, _ *protocol.InitializedParams) e
 			})
 		}
 	}
-	go s.refreshConfiguration(context.Background())
+	go s.refreshConfigurationAt(context.Background(), s.cfgRequested.Add(1))
 	return nil
 }
 
